@@ -457,3 +457,36 @@ package diff
 //@ loop 2 invariant params != nil && vs_fresh(params) && vs_all(func(n string) bool { return vs_has(params, n) == (vs_paramAt(opParams, vs_done(2), location, n) || vs_paramAt(pathParams, len(pathParams), location, n)) })
 //@ loop 2 invariant vs_all(func(j int) bool { return 0 <= j && j < vs_done(2) && opParams[j].In == location && !vs_paramBetween(opParams, j, vs_done(2), location, opParams[j].Name) ==> vs_eq(params[opParams[j].Name], opParams[j]) })
 //@ loop 2 invariant vs_all(func(j int) bool { return 0 <= j && j < len(pathParams) && pathParams[j].In == location && !vs_paramAfter(pathParams, j, location, pathParams[j].Name) && !vs_paramAt(opParams, vs_done(2), location, pathParams[j].Name) ==> vs_eq(params[pathParams[j].Name], pathParams[j]) })
+
+// ---- L3 drivers: endpoint presence (C12 reflexivity, C13 removed endpoint is Breaking, C14 mirror pair) ----
+// The per-iteration clauses ("step") say what one iteration of the map range adds; they are
+// checked for every key the iterator may produce, in every order.
+
+//@ func (*SpecAnalyser).findDeletedEndpoints
+//@ props C12 C13 C14
+//@ safety
+//@ modifies &sd.Diffs
+//@ requires sd != nil && vs_opsOK(sd.urlMethods1)
+//@ ensures len(sd.Diffs) >= old(len(sd.Diffs))
+//@ ensures vs_all(func(i int) bool { return 0 <= i && i < old(len(sd.Diffs)) ==> sd.Diffs[i] == old(sd.Diffs[i]) })
+//@ ensures @C12 vs_all(func(um URLMethod) bool { return vs_has(sd.urlMethods1, um) ==> vs_has(sd.urlMethods2, um) }) ==> len(sd.Diffs) == old(len(sd.Diffs))
+//@ loop 1 invariant sd != nil && len(sd.Diffs) >= old(len(sd.Diffs)) && vs_eq(sd.urlMethods1, old(sd.urlMethods1)) && vs_eq(sd.urlMethods2, old(sd.urlMethods2))
+//@ loop 1 invariant vs_all(func(i int) bool { return 0 <= i && i < old(len(sd.Diffs)) ==> sd.Diffs[i] == old(sd.Diffs[i]) })
+//@ loop 1 invariant @C12 vs_all(func(um URLMethod) bool { return vs_has(sd.urlMethods1, um) ==> vs_has(sd.urlMethods2, um) }) ==> len(sd.Diffs) == old(len(sd.Diffs))
+//@ loop 1 step vs_has(sd.urlMethods2, eachURLMethod) ==> len(sd.Diffs) == old(len(sd.Diffs))
+//@ loop 1 step !vs_has(sd.urlMethods2, eachURLMethod) ==> len(sd.Diffs) == old(len(sd.Diffs))+1 && sd.Diffs[len(sd.Diffs)-1].DifferenceLocation.URL == eachURLMethod.Path && sd.Diffs[len(sd.Diffs)-1].DifferenceLocation.Method == eachURLMethod.Method && vs_deletedEntry(sd.urlMethods1, sd.urlMethods2, sd.Diffs[len(sd.Diffs)-1])
+//@ loop 1 step vs_all(func(i int) bool { return 0 <= i && i < old(len(sd.Diffs)) ==> sd.Diffs[i] == old(sd.Diffs[i]) })
+
+//@ func (*SpecAnalyser).findAddedEndpoints
+//@ props C12 C14
+//@ safety
+//@ modifies &sd.Diffs
+//@ requires sd != nil
+//@ ensures len(sd.Diffs) >= old(len(sd.Diffs))
+//@ ensures vs_all(func(i int) bool { return 0 <= i && i < old(len(sd.Diffs)) ==> sd.Diffs[i] == old(sd.Diffs[i]) })
+//@ ensures @C12 vs_all(func(um vs_URLMethod) bool { return vs_has(sd.urlMethods2, um) ==> vs_has(sd.urlMethods1, um) }) ==> len(sd.Diffs) == old(len(sd.Diffs))
+//@ loop 1 invariant sd != nil && len(sd.Diffs) >= old(len(sd.Diffs)) && vs_eq(sd.urlMethods1, old(sd.urlMethods1)) && vs_eq(sd.urlMethods2, old(sd.urlMethods2))
+//@ loop 1 invariant vs_all(func(i int) bool { return 0 <= i && i < old(len(sd.Diffs)) ==> sd.Diffs[i] == old(sd.Diffs[i]) })
+//@ loop 1 invariant @C12 vs_all(func(um vs_URLMethod) bool { return vs_has(sd.urlMethods2, um) ==> vs_has(sd.urlMethods1, um) }) ==> len(sd.Diffs) == old(len(sd.Diffs))
+//@ loop 1 step vs_has(sd.urlMethods1, URLMethod) ==> len(sd.Diffs) == old(len(sd.Diffs))
+//@ loop 1 step !vs_has(sd.urlMethods1, URLMethod) ==> len(sd.Diffs) == old(len(sd.Diffs))+1 && sd.Diffs[len(sd.Diffs)-1].DifferenceLocation.URL == URLMethod.Path && sd.Diffs[len(sd.Diffs)-1].DifferenceLocation.Method == URLMethod.Method && sd.Diffs[len(sd.Diffs)-1].Code == AddedEndpoint && sd.Diffs[len(sd.Diffs)-1].DifferenceLocation.Response == 0
